@@ -12,7 +12,7 @@ use std::panic::{catch_unwind, AssertUnwindSafe};
 use std::sync::atomic::{AtomicBool, AtomicI32, AtomicU64, Ordering};
 use std::sync::Mutex;
 
-use super::spaces::{Space, P};
+use super::spaces::{Env, Space, P};
 use super::{LIMIT, LIVE};
 
 pub const IDLE: u64 = u64::MAX;
@@ -247,9 +247,133 @@ fn js_of(input: &[u8]) -> java_string::JavaString {
 	}
 }
 
-/// Runs the REAL parser `p` on `input`. Everything built from the input (tree, error) is dropped in here.
-fn run_real(p: P, input: &Vec<u8>, scratch: &std::path::Path) -> Result<Option<String>, String> {
+/// The scripted reader of the environment alphabet: serves `data` in pieces of at most `chunk` bytes, optionally refusing
+/// every request once with `Interrupted`, optionally failing with an I/O error once byte offset `fail_at` is reached.
+/// Seeking is that of a cursor (a position behind the end is allowed and reads nothing).
+struct EnvReader<'a> {
+	data: &'a [u8],
+	pos: u64,
+	chunk: usize,
+	interrupt: bool,
+	refused: bool,
+	fail_at: Option<usize>,
+}
+
+impl<'a> EnvReader<'a> {
+	fn new(data: &'a [u8], env: Env) -> EnvReader<'a> {
+		let mut r = EnvReader { data, pos: 0, chunk: usize::MAX, interrupt: false, refused: false, fail_at: None };
+		match env {
+			Env::Chunk(k) => r.chunk = (k as usize).max(1),
+			Env::Interrupted(k) => {
+				r.chunk = (k as usize).max(1);
+				r.interrupt = true;
+			},
+			Env::FailAt(n) => r.fail_at = Some(n as usize),
+			_ => {},
+		}
+		r
+	}
+}
+
+pub const READER_FAILURE: &str = "scripted reader failure";
+pub const WRITER_FAILURE: &str = "scripted writer failure";
+
+impl std::io::Read for EnvReader<'_> {
+	fn read(&mut self, buf: &mut [u8]) -> std::io::Result<usize> {
+		if buf.is_empty() {
+			return Ok(0);
+		}
+		if self.interrupt && !self.refused {
+			self.refused = true;
+			return Err(std::io::ErrorKind::Interrupted.into());
+		}
+		self.refused = false;
+		let pos = (self.pos.min(self.data.len() as u64)) as usize;
+		let mut n = buf.len().min(self.data.len() - pos).min(self.chunk);
+		if let Some(f) = self.fail_at {
+			if pos >= f {
+				return Err(std::io::Error::new(std::io::ErrorKind::Other, READER_FAILURE));
+			}
+			n = n.min(f - pos);
+		}
+		buf[..n].copy_from_slice(&self.data[pos..pos + n]);
+		self.pos = (pos + n) as u64;
+		Ok(n)
+	}
+}
+
+impl std::io::Seek for EnvReader<'_> {
+	fn seek(&mut self, to: std::io::SeekFrom) -> std::io::Result<u64> {
+		let target = match to {
+			std::io::SeekFrom::Start(p) => p as i128,
+			std::io::SeekFrom::Current(d) => self.pos as i128 + d as i128,
+			std::io::SeekFrom::End(d) => self.data.len() as i128 + d as i128,
+		};
+		if target < 0 || target > u64::MAX as i128 {
+			return Err(std::io::Error::new(std::io::ErrorKind::InvalidInput, "invalid seek to a negative or overflowing position"));
+		}
+		self.pos = target as u64;
+		self.refused = false;
+		Ok(self.pos)
+	}
+}
+
+/// the scripted writer: accepts at most `chunk` bytes per call and `fail_at` bytes in total, then fails with an I/O error
+struct EnvWriter {
+	written: usize,
+	chunk: usize,
+	fail_at: Option<usize>,
+}
+
+impl std::io::Write for EnvWriter {
+	fn write(&mut self, buf: &[u8]) -> std::io::Result<usize> {
+		if buf.is_empty() {
+			return Ok(0);
+		}
+		let mut n = buf.len().min(self.chunk);
+		if let Some(f) = self.fail_at {
+			if self.written >= f {
+				return Err(std::io::Error::new(std::io::ErrorKind::Other, WRITER_FAILURE));
+			}
+			n = n.min(f - self.written);
+		}
+		self.written += n;
+		Ok(n)
+	}
+	fn flush(&mut self) -> std::io::Result<()> {
+		Ok(())
+	}
+}
+
+/// Runs the REAL parser `p` on `input`, served as `env` says. Everything built from the input (tree, error) is dropped in here.
+fn run_real(p: P, env: Env, input: &Vec<u8>, scratch: &std::path::Path) -> Result<Option<String>, String> {
 	let e2s = |e: anyhow::Error| format!("{e:#}");
+	if env != Env::Plain {
+		return match p {
+			P::Class => {
+				let class = match env {
+					Env::WriterFailAt(_) | Env::WriterChunk(_) => duke::read_class(&mut Cursor::new(input.as_slice())),
+					_ => duke::read_class(&mut EnvReader::new(input, env)),
+				}.map_err(e2s)?;
+				let written = match env {
+					Env::WriterFailAt(n) => duke::write_class(&mut EnvWriter { written: 0, chunk: usize::MAX, fail_at: Some(n as usize) }, &class),
+					Env::WriterChunk(k) => duke::write_class(&mut EnvWriter { written: 0, chunk: (k as usize).max(1), fail_at: None }, &class),
+					_ => duke::write_class(&mut Vec::new(), &class),
+				};
+				match written {
+					Ok(()) => Ok(None),
+					Err(e) => Ok(Some(format!("{e:#}"))),
+				}
+			},
+			P::Tiny2 => quill::tiny_v2::read::<2, ()>(EnvReader::new(input, env)).map(|_| None).map_err(e2s),
+			P::Tiny3 => quill::tiny_v2::read::<3, ()>(EnvReader::new(input, env)).map(|_| None).map_err(e2s),
+			P::Enigma => {
+				let mut m = quill::tree::mappings::Mappings::<2, ()>::from_namespaces(["a", "b"]).map_err(|e| format!("MACHINERY from_namespaces: {e:#}"))?;
+				quill::enigma_file::read_into(EnvReader::new(input, env), &mut m).map(|_| None).map_err(e2s)
+			},
+			_ => Err(format!("MACHINERY no scripted environment for {}", p.name())),
+		};
+	}
 	match p {
 		P::Class => {
 			let class = duke::read_class(&mut Cursor::new(input.as_slice())).map_err(e2s)?;
@@ -267,7 +391,11 @@ fn run_real(p: P, input: &Vec<u8>, scratch: &std::path::Path) -> Result<Option<S
 		},
 		P::Enigma => {
 			let mut m = quill::tree::mappings::Mappings::<2, ()>::from_namespaces(["a", "b"]).map_err(|e| format!("MACHINERY from_namespaces: {e:#}"))?;
-			quill::enigma_file::read_into(input.as_slice(), &mut m).map(|_| None).map_err(e2s)
+			quill::enigma_file::read_into(input.as_slice(), &mut m).map_err(e2s)?;
+			// the function appends to mappings that are already there: the same file once more, into what it has just
+			// produced (every entry is a duplicate now); whatever the answer, it must be an answer
+			let _ = quill::enigma_file::read_into(input.as_slice(), &mut m);
+			Ok(None)
 		},
 		P::Nests => dukenest::nest::Nests::<()>::read(input).map(|_| None).map_err(e2s),
 		P::DescField => {
@@ -294,8 +422,8 @@ fn run_real(p: P, input: &Vec<u8>, scratch: &std::path::Path) -> Result<Option<S
 	}
 }
 
-fn run_case(p: P, input: &Vec<u8>, scratch: &std::path::Path) -> Outcome {
-	let r = catch_unwind(AssertUnwindSafe(|| run_real(p, input, scratch)));
+fn run_case(p: P, env: Env, input: &Vec<u8>, scratch: &std::path::Path) -> Outcome {
+	let r = catch_unwind(AssertUnwindSafe(|| run_real(p, env, input, scratch)));
 	match r {
 		Ok(Ok(None)) => Outcome::Ok,
 		Ok(Ok(Some(w))) => Outcome::OkWriteRefused(w),
@@ -392,13 +520,14 @@ fn worker(thorough: bool, page: &Page, jobs: &[JobSpec], scratch: &std::path::Pa
 		CUR_JOB.store(j as u64, Ordering::SeqCst);
 		for i in job.from..job.to {
 			let p = space.parser(i);
+			let env = space.env(i);
 			let input = space.input(i);
 			CUR_IDX.store(i, Ordering::SeqCst);
 			page.set(S_IDX, i);
 			SEQ.fetch_add(1, Ordering::SeqCst);
 			let cpu0 = if trace { thread_cpu_s(CLOCK_ID.load(Ordering::SeqCst)) } else { 0.0 };
 			LIMIT.store(LIVE.load(Ordering::SeqCst).saturating_add(input.len().saturating_mul(ALLOC_FACTOR)).saturating_add(ALLOC_SLACK), Ordering::SeqCst);
-			let out = run_case(p, &input, scratch);
+			let out = run_case(p, env, &input, scratch);
 			LIMIT.store(usize::MAX, Ordering::SeqCst);
 			SEQ.fetch_add(1, Ordering::SeqCst);
 			page.set(S_IDX, IDLE);
